@@ -13,7 +13,9 @@ Norm(e) ==
   ELSE IF e.t \in {"grp", "star", "plus", "opt"} THEN [t |-> e.t, a |-> Norm(e.a)]
   ELSE e
 
-PathsOf(in) == << <<114>> >> \o [k \in DOMAIN in.names |-> <<114, 47>> \o in.names[k]]
+\* the starting point "r" may be spelled with trailing slashes: the paths are what -print prints
+RootSpell(in) == <<114>> \o [i \in 1..(IF "rootslash" \in DOMAIN in THEN in.rootslash ELSE 0) |-> 47]
+PathsOf(in) == << RootSpell(in) >> \o [k \in DOMAIN in.names |-> (IF Len(RootSpell(in)) = 1 THEN <<114, 47>> ELSE RootSpell(in)) \o in.names[k]]
 
 InDomain(in, obs) ==
   /\ in.syn = EffectiveType(in.words)
